@@ -193,8 +193,8 @@ def run(chk: Check, model):
         fi, ev, r = _ev(model, f"node.{cls}.__init__")
         d = T.assume(r.attr("self", "delay"), T.eq(S("delay"), T.NONE, numeric=False), True)
         d = T.assume(d, T.eq(S("delay_dist"), T.NONE, numeric=False), False)
-        for c in [x[1] for x in T.walk(d) if x[0] == "ite" and x[1][0] == "call" and x[1][1] == "isinstance"]:
-            d = T.assume(d, c, False)
+        for c in [x[1] for x in T.walk(d) if x[0] == "ite" and x[1][0] == "call" and x[1][1] == "isinstance" and x[1][2] and x[1][2][0][0] == "sym"]:
+            d = T.assume(d, c, False)  # (the distrax -> StaticDist wrapping test on the parameter itself; any other test stays visible)
         ok = d == T.mk_call("delay_dist.quantile", [T.const(T.F(99, 100))])
         chk.add("C15.default", f"{cls}: default delay = quantile(0.99)", ok, f"default delay = {T.show(d)[:160]}", chk.loc(fi))
         given = T.assume(r.attr("self", "delay"), T.eq(S("delay"), T.NONE, numeric=False), False)
